@@ -930,6 +930,9 @@ class Simplifier(pysmt.walkers.DagWalker):
         s, i = args
         if s.is_string_constant() and i.is_int_constant():
             i_value = cast(int, i.constant_value())
+            if i_value < 0:
+                # SMT-LIB: out of bounds index yields the empty string
+                return self.manager.String("")
             res = cast(str, s.constant_value())[i_value:i_value + 1]
             return self.manager.String(res)
         return self.manager.StrCharAt(s, i)
@@ -944,6 +947,9 @@ class Simplifier(pysmt.walkers.DagWalker):
     def walk_str_indexof(self, formula: FNode, args: List[FNode], **kwargs) -> FNode:
         s, t, i = args
         if s.is_string_constant() and t.is_string_constant() and i.is_int_constant():
+            if cast(int, i.constant_value()) < 0:
+                # SMT-LIB: a negative start index yields -1
+                return self.manager.Int(-1)
             idx = cast(str, s.constant_value()).find(
                 cast(str, t.constant_value()),
                 cast(int, i.constant_value()),
@@ -965,7 +971,11 @@ class Simplifier(pysmt.walkers.DagWalker):
         s, i, j = args
         if s.is_string_constant() and i.is_int_constant() and j.is_int_constant():
             start_ = cast(int, i.constant_value())
-            end_ = cast(int, i.constant_value()) + cast(int, j.constant_value())
+            len_ = cast(int, j.constant_value())
+            if start_ < 0 or len_ <= 0:
+                # SMT-LIB: negative start or non-positive length yield ""
+                return self.manager.String("")
+            end_ = start_ + len_
             res = cast(str, s.constant_value())[start_:end_]
             return self.manager.String(res)
         return self.manager.StrSubstr(s, i, j)
